@@ -478,6 +478,7 @@ func parentMain(ck *Check, tier string) int {
 		ck.Finish(m)
 	}
 
+	os.RemoveAll(filepath.Join(verifDir(), "replays", ck.ID))
 	// Known findings.
 	kf := loadKnown()
 	var keys []string
